@@ -164,8 +164,8 @@ def handle (line : String) : String :=
       let modelAns := resultText (fromExisting file)
       let input := "parse " ++ Bytes.toHex file
       if WF m && (view m).isSome && declFillsOk (modelData m).decls fs then
-        -- expected = the unchanged view (block and runtime-block level proved: `c06_decl_fill_*`,
-        -- `c06_grammar_fill_roundtrip`, `c06_headers_of_fill`; whole file by correspondence)
+        -- expected = the unchanged view (proved: block and runtime-block level `c06_decl_fill_*`,
+        -- `c06_grammar_fill_roundtrip`, `c06_headers_of_fill`; whole file `c06_parse_fill_partial`)
         answer input (specText m)
           (["decl:filled"] ++ (if hasWeightsByte4 m then ["kf:c06.blendweights-byte4"] else []))
           (some modelAns)
